@@ -827,6 +827,200 @@ pub fn check_c16(ctx: &Ctx, d: &TDump) -> Option<String> {
     None
 }
 
+/// Every stored record (pending slot included) is a record of the id it is stored under: the
+/// routing table maps a node id to that node's own record (C01: what the service hands to the
+/// handler for a who-are-you query about X is X's record; C12: a record replaces a stored one only
+/// if it is for the same id).
+pub fn check_keyed(owner: &HashMap<K32, usize>, d: &TDump) -> Option<String> {
+    for b in &d.buckets {
+        for n in b.nodes.iter().chain(b.pending.iter()) {
+            if n.vid == 0 {
+                return Some(format!("bucket {}: a record that was never offered is stored under id {}", b.idx, hex::encode(&n.key[28..])));
+            }
+            let slot = (n.vid as usize - 1) / VARIANTS;
+            if owner.get(&n.key) != Some(&slot) {
+                return Some(format!("bucket {}: the record stored under an id is a record of another node", b.idx));
+            }
+        }
+    }
+    None
+}
+
+/// Frame condition on records: the record stored under an id appears or changes only by an
+/// operation addressed to that id, and then it is the record carried by that operation.
+pub fn check_record_frame(ctx: &Ctx, before: &TDump, after: &TDump, op: &Op) -> Option<String> {
+    let offered: Option<(K32, u64)> = match op {
+        Op::InsertOrUpdate(k, v, ..) | Op::UpdateNode(k, v, _) | Op::Entry(k, Action::Insert(v, ..)) => Some((*k, ctx.pool[*v].vid)),
+        _ => None,
+    };
+    let mut old: HashMap<K32, u64> = HashMap::new();
+    for b in &before.buckets {
+        for n in b.nodes.iter().chain(b.pending.iter()) {
+            old.insert(n.key, n.vid);
+        }
+    }
+    for b in &after.buckets {
+        for n in b.nodes.iter().chain(b.pending.iter()) {
+            match old.get(&n.key) {
+                Some(v) if *v == n.vid => {}
+                Some(_) => {
+                    if offered != Some((n.key, n.vid)) {
+                        return Some(format!(
+                            "bucket {}: the record of an entry changed although the operation {}",
+                            b.idx,
+                            if offered.map(|o| o.0) == Some(n.key) { "carried another record" } else { "was not addressed to that id" }
+                        ));
+                    }
+                }
+                None => {
+                    if offered != Some((n.key, n.vid)) {
+                        return Some(format!("bucket {}: an entry appeared that the operation did not offer", b.idx));
+                    }
+                }
+            }
+        }
+    }
+    None
+}
+
+/// C07: a node leaves the nodes of its bucket only because an operation addressed to it removed it
+/// (remove, a status or record update refused by a limit), or as the eviction victim of a promoted
+/// pending node - and then it was disconnected, at the head of a full bucket.  In particular a
+/// connected node is never evicted in favour of a pending one.
+pub fn check_departures(before: &TDump, after: &TDump, op: &Op) -> Option<String> {
+    let addressed: Option<K32> = match op {
+        Op::Remove(k) | Op::Entry(k, Action::Remove) | Op::Entry(k, Action::Update(..)) | Op::UpdateNode(k, ..) | Op::UpdateStatus(k, ..) | Op::InsertOrUpdate(k, ..) => Some(*k),
+        _ => None,
+    };
+    for b in &before.buckets {
+        let a_bucket = after.buckets.iter().find(|a| a.idx == b.idx);
+        let a_nodes: &[NDump] = a_bucket.map(|a| &a.nodes[..]).unwrap_or(&[]);
+        // the pending node is among the nodes now - or the operation was addressed to it and removed it
+        // after its promotion (remove, a record update refused by a filter): it is nowhere any more
+        let promoted = b
+            .pending
+            .as_ref()
+            .map(|p| {
+                a_nodes.iter().any(|n| n.key == p.key)
+                    || (Some(p.key) == addressed && a_bucket.and_then(|a| a.pending.as_ref()).map(|q| q.key) != Some(p.key))
+            })
+            .unwrap_or(false);
+        for (pos, n) in b.nodes.iter().enumerate() {
+            if a_nodes.iter().any(|m| m.key == n.key) || Some(n.key) == addressed {
+                continue;
+            }
+            if !promoted {
+                return Some(format!("bucket {}: a node left the bucket although no operation addressed it and no pending node was promoted", b.idx));
+            }
+            if n.conn {
+                return Some(format!("bucket {}: a connected node was evicted in favour of a pending node", b.idx));
+            }
+            if pos != 0 {
+                return Some(format!("bucket {}: the node evicted by a pending node was not the head of the bucket", b.idx));
+            }
+            if b.nodes.len() != 16 {
+                return Some(format!("bucket {}: a node was evicted from a bucket that was not full", b.idx));
+            }
+        }
+    }
+    None
+}
+
+/// C12 (with the IP filters configured as the table filter): when an operation stores a new record
+/// for an id - admission or replacement of the stored record - the entry passes the configured
+/// table filter: fewer than 10 other records of the table (pending slots included) share its /24.
+pub fn check_c12_record(ctx: &Ctx, before: &TDump, after: &TDump, op: &Op) -> Option<String> {
+    let (k, vid) = match op {
+        Op::InsertOrUpdate(k, v, ..) | Op::UpdateNode(k, v, _) => (*k, ctx.pool[*v].vid),
+        _ => return None,
+    };
+    let find = |d: &TDump| d.buckets.iter().flat_map(|b| b.nodes.iter().chain(b.pending.iter())).find(|n| n.key == k).map(|n| n.vid);
+    if find(after) != Some(vid) || find(before) == Some(vid) {
+        return None;
+    }
+    let s = ctx.sub(vid)?;
+    let others = after
+        .buckets
+        .iter()
+        .flat_map(|b| b.nodes.iter().chain(b.pending.iter()))
+        .filter(|n| n.key != k && ctx.sub(n.vid) == Some(s))
+        .count();
+    if others >= 10 {
+        return Some(format!(
+            "{}: the stored record was replaced by (or the node admitted with) a record that does not pass the table filter: {} other records of subnet {:x}",
+            if find(before).is_some() { "record update" } else { "admission" },
+            others,
+            s
+        ));
+    }
+    None
+}
+
+/// C08 for the public lookup `Discv5::nodes_by_distance`, on a `Discv5` that owns a copy of the
+/// table as it is before the operation: the answer consists of stored nodes at the requested
+/// distances (distance 0: the local record first), all of them up to `max_nodes_response`, where
+/// "stored" is what a full scan of the table (`iter`) yields afterwards; and the answer and the
+/// table afterwards are those of `KBucketsTable::nodes_by_distances` on the same table.
+pub fn check_discv5_nbd(ctx: &Ctx, g: &GenCase, disc: &discv5::Discv5, pre: &Table, ds: &[u64]) -> Option<String> {
+    disc.with_kbuckets(|kb| *kb.write() = pre.clone());
+    let got: Vec<Enr> = disc.nodes_by_distance(ds.to_vec());
+    let post: Table = disc.with_kbuckets(|kb| kb.read().clone());
+    let mut dd = ds.to_vec();
+    dd.sort_unstable();
+    dd.dedup();
+    let mut rest: &[Enr] = &got;
+    if dd.first() == Some(&0) {
+        dd.remove(0);
+        if rest.first() != Some(&g.local_enr) {
+            return Some("Discv5::nodes_by_distance: distance 0 requested but the local record is not the first node".into());
+        }
+        rest = &rest[1..];
+    }
+    let mut scan_t = post.clone();
+    let scan: Vec<(K32, u64)> = scan_t.iter().map(|x| (raw(x.node.key), ctx.vid(x.node.value))).collect();
+    let at = |k: &K32| log2(&xor(&g.cfg.local, k)).map(|x| x as u64 + 1);
+    let mut seen = BTreeSet::new();
+    for e in rest {
+        let v = ctx.vid(e);
+        match scan.iter().find(|(_, sv)| *sv == v && v != 0) {
+            None => return Some("Discv5::nodes_by_distance: a returned node is not stored in the table".into()),
+            Some((k, _)) => {
+                if !at(k).map(|d| dd.contains(&d)).unwrap_or(false) {
+                    return Some("Discv5::nodes_by_distance: node at a distance that was not requested".into());
+                }
+                if !seen.insert(*k) {
+                    return Some("Discv5::nodes_by_distance: duplicate node".into());
+                }
+            }
+        }
+    }
+    let stored = scan.iter().filter(|(k, _)| at(k).map(|d| dd.contains(&d)).unwrap_or(false)).count();
+    let expect = std::cmp::min(stored, std::cmp::max(g.disc_cap, 1));
+    if rest.len() != expect {
+        return Some(format!("Discv5::nodes_by_distance: {} nodes returned, {} expected", rest.len(), expect));
+    }
+    // the routing table's own lookup on the same table
+    let mut r = pre.clone();
+    let want: Vec<Enr> = r.nodes_by_distances(&dd, g.disc_cap).into_iter().map(|e| e.node.value.clone()).collect();
+    if want != rest {
+        return Some("Discv5::nodes_by_distance: answer differs from KBucketsTable::nodes_by_distances on the same table".into());
+    }
+    if dump(ctx, &post) != dump(ctx, &r) {
+        return Some("Discv5::nodes_by_distance: leaves the table in another state than KBucketsTable::nodes_by_distances".into());
+    }
+    None
+}
+
+pub fn new_discv5(g: &GenCase) -> Option<discv5::Discv5> {
+    let key = CombinedKey::secp256k1_from_bytes(&mut g.local_key.clone()).ok()?;
+    let mut b = discv5::ConfigBuilder::new(discv5::ListenConfig::Ipv4 { ip: Ipv4Addr::new(127, 0, 0, 1), port: 9000 });
+    b.incoming_bucket_limit(g.cfg.max_incoming).max_nodes_response(g.disc_cap);
+    if g.cfg.filters {
+        b.ip_limit();
+    }
+    discv5::Discv5::new(g.local_enr.clone(), key, b.build()).ok()
+}
+
 // --------------------------------------------------------------------------------------------
 // Generator
 
@@ -834,15 +1028,32 @@ pub struct GenCase {
     pub cfg: CaseCfg,
     pub ops: Vec<Op>,
     pub bucket_choice: Vec<usize>,
+    /// the key slot (see `make_pool`) of every candidate id of the case: the records of slot s are
+    /// the records "of" that id (in the running node the id is the hash of the record's key)
+    pub owner: HashMap<K32, usize>,
+    /// the local node: its id is the table's local key (so that a `Discv5` can own the table)
+    pub local_enr: Enr,
+    pub local_key: Vec<u8>,
+    /// `max_nodes_response` of the `Discv5` instance used for `Discv5::nodes_by_distance`
+    pub disc_cap: usize,
+    pub opening: &'static str,
 }
 
 pub fn gen_case(rng: &mut Rng, pool_len: usize, focus: &str, nops: usize) -> GenCase {
-    let mut local = [0u8; 32];
-    local.copy_from_slice(&rng.bytes(32));
+    // the local id is the node id of a record signed with a PRNG-derived key
+    let (local_enr, local_key) = loop {
+        let kb = rng.bytes(32);
+        if let Ok(k) = CombinedKey::secp256k1_from_bytes(&mut kb.clone()) {
+            let enr = Enr::builder().ip4(Ipv4Addr::new(127, 0, 0, 1)).udp4(9000).build(&k).unwrap();
+            break (enr, kb);
+        }
+    };
+    let local: K32 = local_enr.node_id().raw();
     let filters = match focus {
         "c16" => true,
         "c07" => false,
         "c08" => rng.chance(1, 5),
+        "rec" => rng.chance(3, 4),
         _ => rng.chance(1, 2),
     };
     let max_incoming: usize = match rng.below(4) {
@@ -864,14 +1075,22 @@ pub fn gen_case(rng: &mut Rng, pool_len: usize, focus: &str, nops: usize) -> Gen
         // the candidate must stay pending while a slot is freed
         timeout_zero = false;
     }
-    let nb = if scripted_c16 { 7 } else { rng.range(2, 5) as usize };
+    // scripted opening around a pending candidate whose timeout elapses mid-sequence (see below)
+    let scripted_due = !scripted_incoming && !scripted_c16 && rng.chance(if focus == "rec" { 3 } else { 1 }, if focus == "c16" { 2 } else { 4 });
+    if scripted_due {
+        timeout_zero = false;
+    }
+    // `crowd`: ten records of one /24 spread over the other buckets (the table limit is reached)
+    let due_crowd = scripted_due && filters && rng.chance(2, 3);
+    let wide = scripted_c16 || due_crowd;
+    let nb = if wide { 7 } else { rng.range(2, 5) as usize };
     let mut bucket_choice = vec![];
     while bucket_choice.len() < nb {
-        let i = match if scripted_c16 { 9 } else { rng.below(10) } {
+        let i = match if wide { 9 } else { rng.below(10) } {
             0..=2 => rng.below(8) as usize,
             3..=4 => 250 + rng.below(6) as usize,
             5..=7 => 4 + rng.below(6) as usize,
-            _ if scripted_c16 => 8 + rng.below(248) as usize,
+            _ if wide => 8 + rng.below(248) as usize,
             _ => rng.below(256) as usize,
         };
         if !bucket_choice.contains(&i) {
@@ -912,6 +1131,15 @@ pub fn gen_case(rng: &mut Rng, pool_len: usize, focus: &str, nops: usize) -> Gen
     }
     let local_slot = SLOTS - 1;
     let _ = pool_len;
+    let mut owner: HashMap<K32, usize> = HashMap::new();
+    for (j, ks) in keys.iter().enumerate() {
+        for (i, k) in ks.iter().enumerate() {
+            owner.insert(*k, (offset[j] + i) % (SLOTS - 1));
+        }
+    }
+    owner.insert(local, local_slot);
+    let disc_cap = *rng.pick(&[1usize, 3, 16, 16, 16, 16, 20]);
+    let mut opening: &'static str = "none";
     let pick_key = |rng: &mut Rng| -> (K32, usize) {
         let j = if rng.chance(3, 5) { focus_b } else { rng.below(keys.len() as u64) as usize };
         if rng.chance(1, 60) {
@@ -1039,6 +1267,146 @@ pub fn gen_case(rng: &mut Rng, pool_len: usize, focus: &str, nops: usize) -> Gen
         }
         ops.push(Op::ForceReady(bucket_choice[focus_b]));
         ops.push(if rng.chance(1, 2) { Op::Iter } else { Op::Entry(keys[focus_b][0], Action::Look) });
+    } else if scripted_due {
+        // A full bucket whose least recently active node(s) are disconnected, and a connected candidate
+        // waiting in the pending slot.  Before the candidate's timeout elapses the eviction candidates
+        // may leave the bucket (remove, Entry::remove, a record update refused by a filter) and
+        // connected nodes may take the free slots; then the timeout elapses (hook) and ONE operation
+        // of each kind is the first to touch the bucket.  With `due_crowd` ten records of one /24 sit
+        // in the other buckets, so that a record update into that /24 meets the table limit.
+        opening = if due_crowd { "due+crowd" } else { "due" };
+        let fb = focus_b;
+        let bidx = bucket_choice[fb];
+        let a_var = if rng.chance(1, 3) { 4 } else { 0 };
+        let mut vars: Vec<usize> = vec![];
+        for i in 0..20 {
+            vars.push(if filters {
+                // a full bucket under the bucket limit: records without IPv4, at most two of subnet A
+                if i == 7 {
+                    2
+                } else if !due_crowd && (i == 5 || i == 9) {
+                    a_var
+                } else {
+                    3
+                }
+            } else {
+                rng.below(VARIANTS as u64) as usize
+            });
+        }
+        let val = |i: usize, var: usize| slot_of(fb, i) * VARIANTS + var;
+        let nd = rng.range(1, 3) as usize;
+        let mut n_inc = 0usize;
+        for i in 0..16 {
+            let conn = i >= nd;
+            let inc = conn && n_inc + 1 < max_incoming && rng.chance(1, 4);
+            if inc {
+                n_inc += 1;
+            }
+            ops.push(Op::InsertOrUpdate(keys[fb][i], val(i, vars[i]), conn, inc));
+        }
+        if due_crowd {
+            let mut placed = 0;
+            for j in 0..keys.len() {
+                if j == fb {
+                    continue;
+                }
+                for i in 0..2 {
+                    if placed < 10 && i < keys[j].len() {
+                        let var = if rng.chance(1, 4) { 4 } else { 0 };
+                        ops.push(Op::InsertOrUpdate(keys[j][i], slot_of(j, i) * VARIANTS + var, rng.chance(1, 2), false));
+                        placed += 1;
+                    }
+                }
+            }
+        }
+        // the candidate
+        let cand_inc = n_inc + 1 < max_incoming && rng.chance(1, 3);
+        ops.push(Op::InsertOrUpdate(keys[fb][16], val(16, vars[16]), true, cand_inc));
+        // the eviction candidates stay (0), leave and are replaced by connected nodes (1), or leave (2)
+        let leave = rng.weighted(&[3, 2, 1]);
+        let mut next_new = 17usize;
+        if leave > 0 {
+            for i in 0..nd {
+                match rng.below(if filters { 3 } else { 2 }) {
+                    0 => ops.push(Op::Remove(keys[fb][i])),
+                    1 => ops.push(Op::Entry(keys[fb][i], Action::Remove)),
+                    // a record update into a /24 that is full (in the bucket, or with `due_crowd` in
+                    // the table) drops the node
+                    _ => ops.push(Op::UpdateNode(keys[fb][i], val(i, a_var), None)),
+                }
+                if leave == 1 || rng.chance(1, 2) {
+                    ops.push(Op::InsertOrUpdate(keys[fb][next_new], val(next_new, vars[next_new]), true, false));
+                    next_new += 1;
+                }
+            }
+        }
+        // the timeout elapses
+        if rng.chance(5, 6) {
+            ops.push(Op::ForceReady(bidx));
+        }
+        // the first operation that touches the bucket afterwards
+        let m = rng.range(nd as u64, 15) as usize;
+        let other_var = |rng: &mut Rng| -> usize {
+            if filters {
+                *rng.pick(&[3usize, 2, 2, 0, 4, 1])
+            } else {
+                rng.below(VARIANTS as u64) as usize
+            }
+        };
+        let ost = |rng: &mut Rng| match rng.below(3) {
+            0 => None,
+            1 => Some(true),
+            _ => Some(false),
+        };
+        let cw: u64 = if due_crowd { 1 } else { 0 };
+        let kind = rng.weighted(&match focus {
+            "c08" => [1, 1, 1, 1, 1, 1, 8, 6, 1, 1, 2 * cw],
+            // record-carrying operations
+            "rec" => [6, 2, 3, 1, 1, 1, 1, 1, 1, 1, 6 * cw],
+            _ => [2, 1, 1, 1, 1, 1, 1, 1, 1, 1, 4 * cw],
+        });
+        let probe = match kind {
+            0 => {
+                // a session of a member is (re-)established: the same or another record of that node
+                let var = if rng.chance(1, 3) { vars[m] } else { other_var(rng) };
+                Op::InsertOrUpdate(keys[fb][m], val(m, var), rng.chance(4, 5), false)
+            }
+            1 => Op::InsertOrUpdate(keys[fb][19], val(19, vars[19]), true, false),
+            2 => {
+                let var = other_var(rng);
+                Op::UpdateNode(keys[fb][m], val(m, var), ost(rng))
+            }
+            3 => Op::UpdateStatus(keys[fb][m], rng.chance(1, 2), ost(rng)),
+            4 => {
+                let who = *rng.pick(&[m, m, 16, 19, 0]);
+                let a = match rng.below(3) {
+                    0 => Action::Look,
+                    1 => Action::Update(rng.chance(1, 2), ost(rng)),
+                    _ => Action::Remove,
+                };
+                Op::Entry(keys[fb][who], a)
+            }
+            5 => Op::Iter,
+            6 => {
+                let mut ds = vec![bidx as u64 + 1];
+                if rng.chance(1, 3) {
+                    ds.insert(rng.below(2) as usize, *rng.pick(&bucket_choice) as u64 + 1);
+                }
+                if rng.chance(1, 6) {
+                    ds.push(0);
+                }
+                Op::NodesByDistances(ds, *rng.pick(&[1usize, 3, 16, 16, 16, 20, 40]))
+            }
+            7 => Op::Closest(if rng.chance(1, 2) { keys[fb][m] } else { local }),
+            8 => Op::Remove(keys[fb][m]),
+            9 => Op::UpdateStatus(keys[fb][0], true, None),
+            // a newer record moves a member into the crowded /24
+            _ => Op::UpdateNode(keys[fb][m], val(m, if rng.chance(1, 3) { 4 } else { 0 }), ost(rng)),
+        };
+        ops.push(probe);
+        if rng.chance(1, 2) {
+            ops.push(Op::Iter);
+        }
     } else if rng.chance(3, 4) {
         // fill the focus bucket: mostly disconnected nodes so that a pending slot can arise
         let n_fill = 15 + rng.below(4) as usize;
@@ -1132,7 +1500,7 @@ pub fn gen_case(rng: &mut Rng, pool_len: usize, focus: &str, nops: usize) -> Gen
         };
         ops.push(op);
     }
-    GenCase { cfg, ops, bucket_choice }
+    GenCase { cfg, ops, bucket_choice, owner, local_enr, local_key, disc_cap, opening }
 }
 
 pub fn new_table(cfg: &CaseCfg) -> Table {
@@ -1175,8 +1543,11 @@ pub fn run_case(ctx: &Ctx, id: u64, g: &GenCase, hist: &mut Hist) -> CaseResult 
     let mut saw_mixed = false;
     let mut saw_promotion = false;
     let mut h: u64 = 1469598103934665603;
+    let mut disc: Option<discv5::Discv5> = None;
+    hist.add(&format!("opening:{}", g.opening));
     for (i, op) in g.ops.iter().enumerate() {
         let now = i as u64 + 1;
+        let pre: Option<Table> = if matches!(op, Op::NodesByDistances(..)) { Some(t.clone()) } else { None };
         let res = catch(std::panic::AssertUnwindSafe(|| apply(ctx, &mut t, op)));
         let (mut e, ret) = match res {
             Ok(x) => x,
@@ -1242,6 +1613,32 @@ pub fn run_case(ctx: &Ctx, id: u64, g: &GenCase, hist: &mut Hist) -> CaseResult 
         if g.cfg.filters {
             if let Some(m) = check_c16(ctx, &after) {
                 failures.push(("C16".into(), m, i));
+            }
+            if let Some(m) = check_c12_record(ctx, &before, &after, op) {
+                failures.push(("C12".into(), m, i));
+            }
+        }
+        if let Some(m) = check_departures(&before, &after, op) {
+            failures.push(("C07".into(), m, i));
+        }
+        for m in [check_keyed(&g.owner, &after), check_record_frame(ctx, &before, &after, op)].into_iter().flatten() {
+            failures.push(("C01".into(), m.clone(), i));
+            failures.push(("C12".into(), m, i));
+        }
+        if let (Op::NodesByDistances(ds, _), Some(pre)) = (op, &pre) {
+            if disc.is_none() {
+                disc = new_discv5(g);
+            }
+            match &disc {
+                Some(d) => {
+                    let r = catch(std::panic::AssertUnwindSafe(|| check_discv5_nbd(ctx, g, d, pre, ds)));
+                    match r {
+                        Ok(Some(m)) => failures.push(("C08".into(), m, i)),
+                        Ok(None) => {}
+                        Err(m) => failures.push(("C08".into(), format!("Discv5::nodes_by_distance: panic: {}", m), i)),
+                    }
+                }
+                None => failures.push(("C08".into(), "Discv5::new refused the local record".into(), i)),
             }
         }
         match (op, &ret) {
@@ -1322,11 +1719,17 @@ pub fn main(args: &[String]) {
     let o = parse_opts(args);
     let mut focus = "c07".to_string();
     let mut only: Option<u64> = None;
+    // the property whose first failure ends a case (default: the one named by the focus)
+    let mut prop: Option<String> = None;
     let mut i = 0;
     while i < o.rest.len() {
         match o.rest[i].as_str() {
             "--focus" => {
                 focus = o.rest[i + 1].clone();
+                i += 1;
+            }
+            "--prop" => {
+                prop = Some(o.rest[i + 1].to_uppercase());
                 i += 1;
             }
             "--only" => {
@@ -1337,7 +1740,7 @@ pub fn main(args: &[String]) {
         }
         i += 1;
     }
-    let _ = FOCUS_PROP.set(focus.to_uppercase());
+    let _ = FOCUS_PROP.set(prop.unwrap_or(focus.to_uppercase()));
     let pool = make_pool();
     let ctx = Ctx::new(&pool);
     let mut sum = Summary::new(&format!("kb/{}", focus));
@@ -1394,7 +1797,7 @@ pub fn main(args: &[String]) {
     }
     w.flush();
     sum.case_files = w.files.clone();
-    sum.rule = "operation sequences over a real KBucketsTable<NodeId, Enr>: 2-6 buckets in play chosen with extra weight on indices 0-7 and 250-255, up to 20 candidate ids per bucket, 25 records from 3 /24 subnets plus records without IPv4; a case is non-trivial if some bucket held nodes of mixed status or a pending slot, and distinct if the hash of its result/occupancy trace is new in this run".into();
+    sum.rule = "operation sequences over a real KBucketsTable<NodeId, Enr>: 2-6 buckets in play chosen with extra weight on indices 0-7 and 250-255, up to 20 candidate ids per bucket, records of 256 key slots in 5 versions from few /24 subnets plus records without IPv4; scripted openings (incoming limit and pending slot; /24 limits and pending slot; a pending candidate whose timeout elapses mid-sequence after its eviction candidates stayed, left or were replaced, followed by one operation of each kind, optionally with one /24 at the table limit); every nodes_by_distances step is also put to Discv5::nodes_by_distance on a Discv5 owning a copy of the table; a case is non-trivial if some bucket held nodes of mixed status or a pending slot, and distinct if the hash of its result/occupancy trace is new in this run".into();
     sum.write(&o.out);
     println!(
         "kb: {} cases, {} steps, {} distinct non-trivial, {} monitor failure signatures",
